@@ -198,7 +198,7 @@ def rules(ctx):
                        "shortcut (X - sum of slack bits)^2 only where min X >= 0 is forced", floor=3)
 
     ctx.rule('R02.17', "a special-case branch that reads the polynomial's terms by position or through the inverted "
-                       "value->key table is guarded by the exact number of terms", floor=5)
+                       "value->key table is guarded by the exact number of terms", floor=2)
     meths = rel_methods(P)
     arity_guards(ctx, 'R02.17', P.opt_funcs(['_pcbo._special_constraints_eq_zero', '_pcbo._special_constraints_le_zero']) or
                  [meths['eq'], meths['le']])
